@@ -69,6 +69,10 @@ def make_truth(N, c, lib, rng):
             s = pins.get(p)
             if s in drivers and rng.random() < 0.6:
                 ic.append((drivers[s], f'{inst}/{p}', rand_triple(rng, False), rand_triple(rng, False) if rng.random() < 0.8 else 'same'))
+    # interconnects that end at an output port (ports never get a branch fork)
+    for b in N.outputs():
+        if b in drivers and rng.random() < 0.7:
+            ic.append((drivers[b], b, rand_triple(rng, False), rand_triple(rng, False) if rng.random() < 0.8 else 'same'))
     return io, ic
 
 
@@ -136,13 +140,19 @@ def expected_arrays(c, lib, io, ic, branchforks):
                 eio[ds, line.index, p, 0] = rv[ds]
                 eio[ds, line.index, p, 1] = fv[ds]
     for a, d, r, f in ic:
-        cn, pn = d.split('/')
-        c2 = c.cells[cn]
-        l2 = c2.ins[lib.pin_index(c2.kind, pn)]
+        if '/' in d:
+            cn, pn = d.split('/')
+            c2 = c.cells[cn]
+            l2 = c2.ins[lib.pin_index(c2.kind, pn)]
+            to_port = False
+        else:
+            c2 = c.cells[d]
+            l2 = c2.ins[0] if len(c2.ins) > 0 else None
+            to_port = True
         if l2 is None:
             continue
         fork = l2.driver
-        if branchforks:
+        if branchforks and not to_port:
             line = fork.ins[0]            # the branch fork's input line
         else:
             if len(fork.outs) != 1:
